@@ -300,4 +300,49 @@ theorem facts_of {c : Config} {s : State} {g : Ghost} {i : In} (h : Inv c s g) (
   · intro hf hd; simp [lr, step_lrty, nr, hf, hd]
   · intro hl; have := h.hlb1 hl; simp [accept, this]
 
+theorem fsm_beq (a b : Fsm) : (a == b) = decide (a = b) := by cases a <;> cases b <;> rfl
+theorem gen_beq (a b : Gen) : (a == b) = decide (a = b) := by cases a <;> cases b <;> rfl
+
+/-- cost of a pending LBAD / LXU -/
+def lbc (s : State) : Nat := if s.lbad then 4 else 0
+def lxc (s : State) : Nat := if s.lxu then 4 else 0
+
+theorem step_lxu (c : Config) (s : State) (i : In) : (step c s i).1.lxu =
+    if s.fsm == .sendLxu && done s i then false else if i.rejectPower then true else s.lxu := rfl
+
+/-- one-cycle facts about the pending flags and the counts of LBAD / LRTY / LXU / keepalive -/
+structure Facts2 (c : Config) (s : State) (g : Ghost) (i : In) : Prop where
+  lb   : (ghostStep s i g).lbads = g.lbads + b2 (s.fsm == .sendLbad && done s i)
+  lbK  : s.lbad = true → (s.fsm == .sendLbad && done s i) = false → (step c s i).1.lbad = true
+  lbN  : lbc (step c s i).1 ≤ lbc s + 4 * b2 (badEv s)
+  lbD  : s.fsm = .sendLbad → done s i = true → lbc (step c s i).1 = 0
+  lbS  : s.fsm = .sendLbad → lbc s = 4
+  lrK  : s.lrty = true → (s.fsm == .sendLrty && done s i) = false → (step c s i).1.lrty = true
+  lrN4 : lr (step c s i).1 ≤ lr s + 4 * b2 i.retryRequired
+  lxK  : s.lxu = true → (s.fsm == .sendLxu && done s i) = false → (step c s i).1.lxu = true
+  lxN  : lxc (step c s i).1 ≤ lxc s + 4 * b2 i.rejectPower
+  lxD  : s.fsm = .sendLxu → done s i = true → lxc (step c s i).1 = 0
+  kaK  : s.keepalive = true → (s.fsm == .sendKeepalive && done s i) = false → (step c s i).1.keepalive = true
+
+theorem facts2_of {c : Config} {s : State} {g : Ghost} {i : In} (h : Inv c s g) (e : EnvStep s g i) :
+    Facts2 c s g i := by
+  have nr := no_reset (c := c) e
+  refine ⟨?_, ?_, ?_, ?_, ?_, ?_, ?_, ?_, ?_, ?_, ?_⟩
+  · simp only [ghostStep, wire_lbad h]; cases (s.fsm == Fsm.sendLbad && done s i) <;> simp
+  · intro hl hd; simp [step_lbad, nr, hd, hl]
+  · simp only [lbc, step_lbad, nr]
+    cases s.lbad <;> cases badEv s <;> cases (s.fsm == Fsm.sendLbad && done s i) <;> simp
+  · intro hf hd; simp [lbc, step_lbad, nr, hf, hd]
+  · intro hf; simp [lbc, h.hlb2 hf]
+  · intro hl hd; simp [step_lrty, nr, hd, hl]
+  · simp only [lr, step_lrty, nr]
+    cases s.lrty <;> cases i.retryRequired <;> cases (s.fsm == Fsm.sendLrty && done s i) <;> simp
+  · intro hl hd; simp [step_lxu, hd, hl]
+  · simp only [lxc, step_lxu]
+    rcases Bool.eq_false_or_eq_true s.lxu with h1 | h1 <;>
+      rcases Bool.eq_false_or_eq_true i.rejectPower with h2 | h2 <;>
+      rcases Bool.eq_false_or_eq_true (s.fsm == Fsm.sendLxu && done s i) with h3 | h3 <;> simp [h1, h2, h3]
+  · intro hf hd; simp [lxc, step_lxu, hf, hd]
+  · intro hl hd; simp [step_keepalive, nr, hd, hl]
+
 end LunaVerif.HeaderRx
